@@ -9,6 +9,7 @@ call of the last command is faulted once per kind.
 """
 import ast
 import copy
+import os
 
 from hypothesis import strategies as st
 
@@ -92,7 +93,7 @@ def probes():
             "kwonly_target", "self_offset_target", "middle_position_target", "first_position_target",
             "last_position_target", "target_with_default", "target_without_default", "two_pairs", "same_name_pair",
             "black_absent", "fault_fired", "crash_fired", "torn_close", "second_command_same_file",
-            "raised_without_fault", "user_recovery"]
+            "raised_without_fault", "user_recovery", "input_edited_same_size_same_second"]
 
 
 # ------------------------------------------------------------------------------------ generators
@@ -177,7 +178,10 @@ def command(draw):
     if draw(st.integers(0, 2)) == 2:
         pairs.append(draw(_pair()))
     cmd = {"pairs": pairs, "wrap": None, "eval": draw(st.integers(0, 4)) == 4, "fault": None,
-           "rough": draw(st.integers(0, 5)) == 5}
+           "rough": draw(st.integers(0, 5)) == 5,
+           # before this command (not the first) the user edits the input's constants: every item is replaced by another
+           # of the same length, within the same clock second (size and whole-second mtime of the file stay the same)
+           "edit_input": draw(st.integers(0, 3)) == 3}
     if draw(st.integers(0, 3)) == 3:
         cmd["wrap"] = draw(st.sampled_from(WRAPS))
     if draw(st.integers(0, 9)) >= 7:
@@ -327,6 +331,17 @@ def read_locations(tree):
     for loc in locs:
         if seen[loc["path"]] == 1:      # an ambiguous dotted path selects nothing in particular
             out.append(loc)
+    return out
+
+
+_SWAP = {"a": "b", "b": "a", "np": "tf", "tf": "np", "left": "down", "down": "left", 0: 1, 1: 2, 2: 5, 5: 0, 16: 32, 32: 16}
+
+
+def edited_input(spec):
+    """The input spec after the user's same-length edit of its constants."""
+    out = dict(spec)
+    out["consts"] = [dict(c, values=[_SWAP.get(v, v) for v in c["values"]],
+                          augment=[_SWAP.get(v, v) for v in c.get("augment", ())]) for c in spec.get("consts", ())]
     return out
 
 
@@ -774,6 +789,8 @@ def check_always(before, after, events):
                                                          "how": "created" if created else "deleted" if deleted else "modified"}})
     for e in events:
         writing = e["kind"] in seams.MUTATING or e["kind"] in ("open_w", "open_raw_w")
+        if writing and not e.get("inside") and "__pycache__" in str(e.get("path")):
+            continue    # the import system caching a module that lives outside the project (refused by the seam anyway)
         if writing and not (e.get("inside") and e["path"] in (IN_REL, OUT_REL)):
             v.append({"clause": "D5", "detail": "%s on %r at %s" % (e["kind"], e["path"] if e.get("inside") else "<outside>",
                                                                     e.get("site")),
@@ -893,7 +910,17 @@ def simulate(plan, enumerate_all=None):
     try:
         if plan.get("all_pairs") and not hyp.SHRINKING[0]:
             res.violations += _all_pairs(world, plan, in_tree, out_text, black, stats, files)
+        in_spec = plan["inp"]
         for ci, cmd in enumerate(plan["cmds"]):
+            if ci and cmd.get("edit_input") and in_spec.get("consts"):
+                in_spec = edited_input(in_spec)
+                new_text = render_module(in_spec)
+                if len(new_text.encode("utf-8")) == len(in_text.encode("utf-8")) and new_text != in_text:
+                    st_ = os.stat(world.p(IN_REL))
+                    world.write_files({IN_REL: new_text})
+                    os.utime(world.p(IN_REL), ns=(st_.st_atime_ns, st_.st_mtime_ns))
+                    in_text, in_tree = new_text, ast.parse(new_text)
+                    _bump(probe, "input_edited_same_size_same_second")
             before_text = world.read(OUT_REL)
             out_tree = ast.parse(before_text)       # kept parseable by the recovery step below
             chosen = resolve_pairs(cmd, in_tree, out_tree, avoid)
@@ -908,7 +935,7 @@ def simulate(plan, enumerate_all=None):
                 and not hyp.SHRINKING[0]
             fault = None
             if cmd.get("fault") or do_enum:
-                reh = ops.invoke(world, op, black=black)
+                reh = ops.invoke(world, op, black=black, bytecode=bool(cmd.get("eval")))
                 stats["evaluations"] += 1
                 world.restore(cp)
                 fault = _resolve_fault(cmd.get("fault"), reh.io_events())
@@ -923,7 +950,7 @@ def simulate(plan, enumerate_all=None):
                         res.violations.append(x)
                     world.restore(cp)
             before = world.snapshot(with_mtime=True)
-            o = ops.invoke(world, op, faults=[fault] if fault else None, black=black)
+            o = ops.invoke(world, op, faults=[fault] if fault else None, black=black, bytecode=bool(cmd.get("eval")))
             after = world.snapshot(with_mtime=True)
             stats["commands"] += 1
             stats["evaluations"] += 1
@@ -999,7 +1026,7 @@ def _brief(o, world):
 
 def _concrete_cmd(cmd, chosen):
     return {"pairs": [{"in": i["path"], "out": o["path"]} for i, o in chosen], "wrap": cmd.get("wrap"),
-            "eval": bool(cmd.get("eval")), "fault": None, "rough": True}
+            "eval": bool(cmd.get("eval")), "fault": None, "rough": True, "edit_input": bool(cmd.get("edit_input"))}
 
 
 def _probe_ok(probe, stats, cmd, chosen, ci, history):
